@@ -4,7 +4,8 @@
 // classic | HEVC enhanced-RTMP x AAC | Opus | G.711 | none; NAL units of 1 byte
 // up to 300 KiB, several per frame, AUD / SEI / in-band parameter sets,
 // composition offsets, audio spacings that make lal merge 1..16 AAC frames into
-// one PES, AudioSpecificConfigs of 2-5 bytes, forward and backward timestamp
+// one PES, AudioSpecificConfigs of 2-5 bytes that may change mid-stream (then
+// without RTSP consumers), forward and backward timestamp
 // jumps that stay >= the track's first timestamp, streams that run across the
 // roll-over of the 32-bit RTMP timestamp and streams whose PTS field passes
 // 2^33) into a real in-process lal.  Consumers: HTTP-TS subscribers, RTSP
@@ -31,7 +32,8 @@
 //     per track per consumer (mod 2^33, which is continuous across the 2^32 ms
 //     roll-over because 90*2^32 = 45*2^33), PTS - DTS = 90*cts; an audio PES's
 //     PTS belongs to its first frame; every ADTS header agrees with the head of
-//     the published AudioSpecificConfig and frame_length = header + frame;
+//     the AudioSpecificConfig in force when its frame was published (also after
+//     a mid-stream change) and frame_length = header + frame;
 //     continuity counters of every PID run on without a jump (HTTP-TS: all PIDs;
 //     concatenated HLS segments: the elementary-stream PIDs);
 //   - RTP: timestamp = round(ts*clock/1000) mod 2^32 within one tick, where the
@@ -50,79 +52,14 @@
 package c06
 
 import (
-	"sync"
 	"testing"
 
-	"github.com/q191201771/lal/pkg/base"
-	"github.com/q191201771/lal/pkg/mpegts"
-	"github.com/q191201771/lal/pkg/remux"
-
 	"verif/drv/pbt"
-	"verif/gen"
 )
-
-// rolloverProbe feeds lal's RTMP->TS remuxer a video-only stream that runs
-// across the 2^32 ms roll-over.  The pinned tree treats the roll-over as a jump
-// back to zero and leaves those frames unshifted (finding c06-2); while the
-// remuxer shows exactly that behaviour, cases of the "wrap" class are excluded
-// from the search (counted in excluded_known).  Any other behaviour — the fix,
-// or a faulty roll-over handling — is searched normally, and once the fix is
-// committed corpus/c06/pending-fix/*.json moves into the replayed corpus, which
-// then guards against a return of the old behaviour.
-type rolloverProbe struct{ dts []uint64 }
-
-func (o *rolloverProbe) OnPatPmt(b []byte) {}
-func (o *rolloverProbe) OnTsPackets(p []byte, f *mpegts.Frame, boundary bool) {
-	if f.Sid == mpegts.StreamIdVideo {
-		o.dts = append(o.dts, f.Dts)
-	}
-}
-
-var rolloverOnce sync.Once
-var rolloverLegacy bool
-
-func lalHandlesRollover() bool {
-	rolloverOnce.Do(func() {
-		defer func() { _ = recover() }()
-		o := &rolloverProbe{}
-		r := remux.NewRtmp2MpegtsRemuxer(o)
-		cd := gen.Codecs{Video: "avc"}
-		feed := func(it gen.Item) {
-			pl := it.Payload(cd)
-			r.FeedRtmpMessage(base.RtmpMsg{Header: base.RtmpHeader{Csid: 6, MsgLen: uint32(len(pl)), MsgTypeId: it.TypeID(), MsgStreamId: 1, TimestampAbs: it.Ts}, Payload: pl})
-		}
-		start := uint32(0xFFFFFFF0)
-		feed(gen.Item{Kind: "vsh", Ts: start})
-		for i := 0; i < 20; i++ {
-			feed(gen.Item{Kind: "video", Ts: start + uint32(2*i), Key: i == 0, Nals: []gen.NalSpec{{Hdr: []byte{0x65}, Len: 8, Seed: uint32(i), Serial: uint32(i)}}})
-		}
-		r.Dispose()
-		// exactly the pinned behaviour: every frame behind the roll-over carries its raw 90*ts, unshifted by the time
-		// base.  Anything else (the fix, but also a broken fix) is not excluded.
-		if len(o.dts) != 20 {
-			return
-		}
-		for i := 8; i < 20; i++ {
-			if o.dts[i] != 90*uint64(start+uint32(2*i)) {
-				return
-			}
-		}
-		rolloverLegacy = true
-	})
-	return !rolloverLegacy
-}
-
-// exclude is no longer installed (kept for sensitivity runs against trees older than ac51114).
-func exclude(c Case) string {
-	if c.Wrap && !lalHandlesRollover() {
-		return "rtmp-timestamp-rollover: pending fix findings/c06-2 (ts|hls/video|audio/*-offset-not-constant)"
-	}
-	return ""
-}
 
 func TestRtmpToTsHlsRtsp(t *testing.T) {
 	pbt.Run(t, pbt.Spec[Case]{
-		ID: "C06", Name: "rtmp-to-ts-hls-rtsp", Gen: genCase, Run: run, Classify: classify, // the roll-over class was excluded while fix ac51114 was pending; nothing is excluded any more
+		ID: "C06", Name: "rtmp-to-ts-hls-rtsp", Gen: genCase, Run: run, Classify: classify,
 		Quick: 600, Thorough: 4000,
 	})
 }
